@@ -181,9 +181,12 @@ class Ctx:
         (EVIDENCE_DIR / f"{self.prop_id}.json").write_text(json.dumps(ev, indent=1, sort_keys=False))
         for f, e in old:
             print(f"KNOWN-FINDING: property={self.prop_id} {f.fullkey} :: {e.get('what', f.message)}")
-        if error:
+        if error and not new:
             print(f"ANALYSIS-ERROR property={self.prop_id} {error}")
             return 2
+        if error:
+            # violations established before the analysis stopped are definite; the rest of the analysis is incomplete
+            print(f"ANALYSIS-ERROR property={self.prop_id} (after {len(new)} violation(s) were established) {error}")
         if new:
             REPLAY_DIR.mkdir(parents=True, exist_ok=True)
             for f, _ in new:
